@@ -140,3 +140,99 @@ def pow_const(radix, k, w):
 def bits_for(v):
     """bits of a signed vector that holds every integer of magnitude <= v"""
     return int(v).bit_length() + 2
+
+
+# ----------------------------------------------------------------------------- C++ built-in operator semantics as a spec
+
+def builtin_sem(op, L, R, le, re_):
+    """The value `l op r` has in C++ for built-in integer operands of types L, R (IntT), as contract text.
+    le / re_: C expressions of the unsigned-storage operands.
+    returns dict(res=IntT, requires=[...] (exactly 'the built-in expression is defined'), value=C expr of type res.ctype)"""
+    if op in ('shift_left', 'shift_right'):
+        Res = CT.promote(L)
+    elif op in ('equal', 'not_equal', 'less_than', 'greater_than', 'less_than_or_equal', 'greater_than_or_equal'):
+        Res = CT.common(L, R)
+    else:
+        Res = CT.common(L, R)
+    N = Res.bits
+    w = 2 * max(L.bits, R.bits, N) + 4
+    lm, rm = wval(le, L, w), wval(re_, R, w)           # mathematical values
+    # operands after conversion to the common type (value-preserving for signed Res, modulo 2^N for unsigned Res)
+    lc = '((%s)%s)' % (Res.ctype, lm)
+    rc = '((%s)%s)' % (Res.ctype, rm)
+    lcm, rcm = wval(lc, Res, w), wval(rc, Res, w)
+    req = []
+    if op in ('add', 'subtract', 'multiply'):
+        sym = {'add': '+', 'subtract': '-', 'multiply': '*'}[op]
+        ex = '(%s %s %s)' % (lcm, sym, rcm)
+        if Res.signed:
+            req.append('%s >= %s && %s <= %s' % (ex, wconst(Res.min, w), ex, wconst(Res.max, w)))
+        return dict(res=Res, requires=req, value='((%s)%s)' % (Res.ctype, ex), w=w)
+    if op in ('divide', 'modulo'):
+        sym = '/' if op == 'divide' else '%'
+        req.append('%s != 0' % rcm)
+        if Res.signed:
+            req.append('!(%s == %s && %s == -1)' % (lcm, wconst(Res.min, w), rcm))
+        return dict(res=Res, requires=req, value='((%s)(%s %s %s))' % (Res.ctype, lcm, sym, rcm), w=w)
+    if op in ('bitwise_and', 'bitwise_or', 'bitwise_xor'):
+        sym = {'bitwise_and': '&', 'bitwise_or': '|', 'bitwise_xor': '^'}[op]
+        return dict(res=Res, requires=[], value='((%s)(%s %s %s))' % (Res.ctype, lc, sym, rc), w=w)
+    if op in ('shift_left', 'shift_right'):
+        lp = '((%s)%s)' % (Res.ctype, lm)
+        req.append('%s >= 0 && %s < %d' % (rm, rm, N))
+        cnt = '((unsigned)(%s))' % re_
+        if op == 'shift_left':
+            return dict(res=Res, requires=req, value='((%s)(%s << (%s %% %d)))' % (Res.ctype, lp, cnt, N), w=w)
+        if Res.signed:
+            return dict(res=Res, requires=req, value='((%s)((%s)%s >> (%s %% %d)))' % (Res.ctype, Res.sctype, lp, cnt, N), w=w)
+        return dict(res=Res, requires=req, value='((%s)(%s >> (%s %% %d)))' % (Res.ctype, lp, cnt, N), w=w)
+    cmp_ = {'equal': '==', 'not_equal': '!=', 'less_than': '<', 'greater_than': '>', 'less_than_or_equal': '<=', 'greater_than_or_equal': '>='}
+    if op in cmp_:
+        return dict(res=CT.ty('bool'), requires=[], value='(%s %s %s)' % (lcm, cmp_[op], rcm), w=w)
+    raise KeyError(op)
+
+
+def py_builtin(op, L, R, a, b):
+    """python oracle of builtin_sem: returns value or None when the built-in expression is undefined"""
+    Res = CT.promote(L) if op in ('shift_left', 'shift_right') else CT.common(L, R)
+    la, rb = CT.wrap(a, Res), CT.wrap(b, Res)
+    if op in ('add', 'subtract', 'multiply'):
+        e = {'add': la + rb, 'subtract': la - rb, 'multiply': la * rb}[op]
+        if Res.signed and not Res.min <= e <= Res.max:
+            return None
+        return CT.wrap(e, Res)
+    if op in ('divide', 'modulo'):
+        if rb == 0 or (Res.signed and la == Res.min and rb == -1):
+            return None
+        q = trunc_div(la, rb)
+        return q if op == 'divide' else la - q * rb
+    if op == 'bitwise_and':
+        return CT.wrap(la & rb, Res)
+    if op == 'bitwise_or':
+        return CT.wrap(la | rb, Res)
+    if op == 'bitwise_xor':
+        return CT.wrap(la ^ rb, Res)
+    if op in ('shift_left', 'shift_right'):
+        if not 0 <= b < Res.bits:
+            return None
+        la = CT.wrap(a, Res)
+        return CT.wrap(la << b, Res) if op == 'shift_left' else la >> b
+    cmp_ = {'equal': lambda x, y: x == y, 'not_equal': lambda x, y: x != y, 'less_than': lambda x, y: x < y,
+            'greater_than': lambda x, y: x > y, 'less_than_or_equal': lambda x, y: x <= y, 'greater_than_or_equal': lambda x, y: x >= y}
+    return 1 if cmp_[op](la, rb) else 0
+
+
+def short_of(t):
+    """short alias ('i32', ...) of an IntT"""
+    for k, v in CT.ALIAS.items():
+        if v == t.name and k[0] in 'iu':
+            return k
+    if t.name == 'bool':
+        return 'bool'
+    if t.name == 'char':
+        return 'i8'
+    if t.name in ('long long',):
+        return 'i64'
+    if t.name in ('unsigned long long',):
+        return 'u64'
+    raise KeyError(t.name)
